@@ -103,6 +103,28 @@ CLAIMED["C19"] = dict(
          "only end at the end (DESIGN.md). The floating-point `no larger than requested` comparison is located, not evaluated.",
     note="Trusted: clang, AST export, 64-bit unsigned arithmetic; TimeLine limits are powers of two on entry of advance() by T1 and by restart round-trip.")
 
+CLAIMED["C02"] = dict(
+    level="other", design="3/C02",
+    technique="static analysis: partial evaluation of the exit-mask and entry-index tables over all 64 masks / 27 directions, "
+              "axis-consistency and control-skeleton rules on DensitySubGrid::interact, CAS proof of the surplus-path correction",
+    text="Decides the finite tables and the skeleton that make the geometric claim possible for every start position and direction: "
+         "the 27 consistent exit masks map one-to-one onto the 27 directions and all others are rejected (this bijection defines the "
+         "geometric signature used by C03/C10); each entry classification starts in the lower / upper / position-derived cell per axis; "
+         "in the ray march every per-axis expression uses one axis, the upper face is used for positive direction, the surplus-path "
+         "correction lands exactly on the target optical depth, each visited cell is credited once with the corrected length, and "
+         "INSIDE is returned iff the target was reached. The floating-point march itself is not decided.",
+    note="Trusted: clang, AST export. Optical depth is linear in the path length within a cell (as coded in get_optical_depth).")
+CLAIMED["C03"] = dict(
+    level="other", design="3/C03",
+    technique="static analysis: partial evaluation of the four direction tables over the 27 directions against the code-derived geometric "
+              "signature; structural hand-over and field-set agreement rules",
+    text="Decides the self-consistency of the hand-over bookkeeping for every layout: opposite-direction table is the geometric involution; "
+         "the output/input compatibility tables test exactly the signs of the (opposite) signature; re-positioning snaps exactly the "
+         "coordinates fixed by the entry classification; what leaves through direction i is tagged neighbour(i)/opposite(i) and stored in "
+         "the buffer of the direction the traversal returned; the estimator fields a packet accumulates are the fields folded from copies "
+         "and reset, over full extents, each copy folded once. Numeric equality between layouts and the neighbour wiring are not decided.",
+    note="Trusted: clang, AST export; signature from C02-T1; assumption A1 (mutual, geometrically correct neighbour tables).")
+
 NOT_APPLICABLE = {
     "C13": "Equality with the RANLUX sequence, range [0,1) and byte-identical snapshots are facts about computed 48-bit arithmetic and library I/O; no sound static domain or on-disk reference to validate against. Its one structural clause (generator state fully dumped/restored) is decided under C09.",
     "C15": "Validity of a Voronoi tessellation and agreement of two constructions quantify over real generator sets; correctness rests on geometric predicates and flip sequences whose outcomes are runtime values; no clause has its truth in the shape of the code.",
